@@ -79,6 +79,8 @@ type input struct {
 	MaxElapMs int     `json:"maxelap"`            // forwarder max-request-elapsed-time in ms (0 = 1ns: no retries)
 	Slots     int     `json:"slots"`              // consolidator slots = parsers
 	Compress  bool    `json:"compress"`
+	Cold      int     `json:"cold,omitempty"`  // cold-start records (platform.initStart, platform.initRuntimeDone, platform.initReport): 1 = one batch during the init phase (before the first GET /next), 2 = one batch at the start of invocation 1, 3 = inside the runtimeDone batch of invocation 1, 4 = three batches during the init phase
+	TSeed     int     `json:"tseed,omitempty"` // seed for the types of the "other" telemetry records
 	DynHdr    bool    `json:"dynhdr,omitempty"` // opt-in demonstration (never generated): http-transport.dynamic-headers = [region]
 	Stream    string  `json:"stream"`
 }
@@ -90,7 +92,7 @@ type ev struct {
 	K  string `json:"k"`
 	N  int    `json:"n,omitempty"`
 	Ok bool   `json:"ok,omitempty"`
-	D  []int  `json:"d,omitempty"` // datapoint ids, or telemetry records (0 = other, n = runtimeDone of invocation n)
+	D  []int  `json:"d,omitempty"` // datapoint ids, or telemetry records (n > 0: runtimeDone of invocation n; -i <= 0: otherTypes[i])
 }
 
 type evlog struct {
@@ -193,6 +195,25 @@ func (h *ackHook) unregister(tag string) {
 type nullFormatter struct{}
 
 func (nullFormatter) Format(*logrus.Entry) ([]byte, error) { return nil, nil }
+
+// ---------------------------------------------------------------------------------------
+// telemetry record types other than platform.runtimeDone: every platform / function / extension
+// type of the Lambda Telemetry API (schema 2022-07-01 and later), plus strings that merely resemble
+// the one type the extension must react to.  A record is encoded as -index.
+
+var otherTypes = []string{
+	"platform.start", "platform.report", "platform.extension", "function", "platform.logsDropped",
+	"platform.initReport", "platform.initStart", "platform.initRuntimeDone", "platform.telemetrySubscription",
+	"extension", "platform.restoreStart", "platform.restoreRuntimeDone", "platform.restoreReport", "platform.fault",
+	"platform.runtimeDoneX", "platform.runtimedone", "platform.RuntimeDone", "runtimeDone", "platform.runtimeDone ",
+	" platform.runtimeDone", "platform.runtime", "platform.runtimeDone.extra", "function.runtimeDone", "Platform.runtimeDone", "",
+}
+
+const (
+	tInitStart       = 6
+	tInitRuntimeDone = 7
+	tInitReport      = 5
+)
 
 // ---------------------------------------------------------------------------------------
 // one run
@@ -528,21 +549,33 @@ func runScenario(in input) (res result) {
 	teleClient := &http.Client{Timeout: waitLimit}
 	postTele := func(recs []int) bool {
 		type rec struct {
-			Type string `json:"type"`
-			Time string `json:"time"`
+			Time   string                 `json:"time"`
+			Type   string                 `json:"type"`
+			Record map[string]interface{} `json:"record,omitempty"`
 		}
-		other := []string{"platform.start", "platform.report", "platform.extension", "function", "platform.logsDropped", "platform.initReport"}
 		var rs []rec
-		for i, r := range recs {
+		for _, r := range recs {
 			if r > 0 {
-				rs = append(rs, rec{"platform.runtimeDone", "2022-10-12T00:00:00.000Z"})
+				rs = append(rs, rec{"2022-10-12T00:00:00.000Z", "platform.runtimeDone",
+					map[string]interface{}{"requestId": "r" + strconv.Itoa(r), "status": "success"}})
 			} else {
-				rs = append(rs, rec{other[(i+len(recs))%len(other)], "2022-10-12T00:00:00.000Z"})
+				rs = append(rs, rec{"2022-10-12T00:00:00.000Z", otherTypes[(-r)%len(otherTypes)],
+					map[string]interface{}{"requestId": "x", "type": "platform.runtimeDone"}})
 			}
 		}
 		b, _ := json.Marshal(rs)
 		lg.add(ev{K: "telbatch", D: recs})
-		resp, err := teleClient.Post("http://"+teleAddr+"/telemetry", "application/json", bytes.NewReader(b))
+		var resp *http.Response
+		var err error
+		for try := 0; ; try++ {
+			resp, err = teleClient.Post("http://"+teleAddr+"/telemetry", "application/json", bytes.NewReader(b))
+			// the telemetry server is started concurrently with the subscription: give it time to listen
+			if err != nil && strings.Contains(err.Error(), "connection refused") && try < 500 {
+				time.Sleep(2 * time.Millisecond)
+				continue
+			}
+			break
+		}
 		if err != nil {
 			mon("deadlock: telemetry POST did not return: %v", err)
 			return false
@@ -552,7 +585,63 @@ func runScenario(in input) (res result) {
 		lg.add(ev{K: "telret"})
 		return true
 	}
-	others := func(n int) []int { return make([]int, n) }
+	trng := hlib.NewRand(uint64(in.TSeed) + 77)
+	others := func(n int) []int {
+		out := make([]int, n)
+		for i := range out {
+			switch {
+			case in.TSeed == 0:
+				out[i] = -((i + n) % 6) // old corpus inputs: the six types they were recorded with
+			case trng.Chance(1, 6):
+				out[i] = -tInitRuntimeDone
+			default:
+				out[i] = -trng.Intn(len(otherTypes))
+			}
+		}
+		return out
+	}
+	coldTriple := []int{-tInitStart, -tInitRuntimeDone, -tInitReport}
+	waitKind := func(kind string) bool {
+		deadline := time.Now().Add(waitLimit)
+		for {
+			lg.mu.Lock()
+			found := false
+			for _, e := range lg.evs {
+				if e.K == kind {
+					found = true
+				}
+			}
+			lg.mu.Unlock()
+			if found {
+				return true
+			}
+			if time.Now().After(deadline) {
+				return false
+			}
+			time.Sleep(time.Millisecond)
+		}
+	}
+	if in.Cold == 1 || in.Cold == 4 {
+		// the platform delivers the init-phase records as soon as the subscription exists
+		if !waitKind("subscribe") {
+			mon("start-up: no telemetry subscription within %v", waitLimit)
+			finish(false)
+			return
+		}
+		if in.Cold == 1 {
+			if !postTele(coldTriple) {
+				finish(false)
+				return
+			}
+		} else {
+			for _, r := range coldTriple {
+				if !postTele([]int{r}) {
+					finish(false)
+					return
+				}
+			}
+		}
+	}
 
 	if in.Data0 > 0 {
 		var ids []int
@@ -579,6 +668,12 @@ func runScenario(in input) (res result) {
 			finish(false)
 			return
 		}
+		if n == 1 && in.Cold == 2 {
+			if !postTele(coldTriple) {
+				finish(false)
+				return
+			}
+		}
 		var ids []int
 		for j := 0; j < iv.K; j++ {
 			ids = append(ids, dpID(n, j))
@@ -604,7 +699,11 @@ func runScenario(in input) (res result) {
 				return
 			}
 		}
-		recs := append(append(others(iv.Pre), n), others(iv.Post)...)
+		pre := others(iv.Pre)
+		if n == 1 && in.Cold == 3 {
+			pre = append(append([]int{}, coldTriple...), pre...)
+		}
+		recs := append(append(pre, n), others(iv.Post)...)
 		if !postTele(recs) {
 			finish(false)
 			return
@@ -828,6 +927,10 @@ func genCase(r *hlib.Rand, k int, tier string) input {
 		in.MaxElapMs = hlib.Pick(r, []int{60, 120})
 	case k%10 == 6:
 		in.Stream = "latedata"
+	}
+	in.TSeed = 1 + r.Intn(1<<30)
+	if r.Chance(1, 2) {
+		in.Cold = r.Range(1, 4)
 	}
 	ninv := r.Range(2, 4)
 	if tier == "thorough" {
